@@ -13,6 +13,10 @@ from pandapower import io_utils
 from mc.g_netcmp import Cmp
 
 FORMATS = ["json_str", "json_file", "json_buf", "json_enc", "pickle_file", "pickle_buf", "excel", "sqlite"]
+# save/load SEQUENCES and non-default options of the same functions
+SEQ_FORMATS = ["json_sorted", "json_noindent", "json_partial", "json_partial_sorted", "json_partial_drop", "json_twice", "pickle_twice",
+               "json_then_pickle", "pickle_then_json"]
+PARTIAL = ["bus", "load", "controller"]
 FULL_FIDELITY = ("json_str", "json_file", "json_buf", "json_enc", "pickle_file", "pickle_buf")
 TEXT = ("json_str", "json_file", "json_buf", "json_enc", "excel", "sqlite")
 
@@ -25,6 +29,26 @@ def roundtrip(net, fmt):
     """save + load through the public API; temp files live in a private directory under /tmp that is removed"""
     if fmt == "json_str":
         return pp.from_json_string(pp.to_json(net))
+    if fmt == "json_sorted":
+        return pp.from_json_string(pp.to_json(net, sort_keys=True))
+    if fmt == "json_noindent":
+        return pp.from_json_string(pp.to_json(net, indent=None))
+    if fmt in ("json_partial", "json_partial_sorted"):
+        # save -> load only some tables (the rest stays serialized, keep_serialized_elements=True) -> save that -> load
+        s1 = pp.to_json(net, sort_keys=fmt.endswith("sorted"))
+        part = pp.from_json_string(s1, elements_to_deserialize=list(PARTIAL))
+        return pp.from_json_string(pp.to_json(part))
+    if fmt == "json_partial_drop":
+        # keep_serialized_elements=False: the tables that were asked for must be complete
+        return pp.from_json_string(pp.to_json(net), elements_to_deserialize=list(PARTIAL), keep_serialized_elements=False)
+    if fmt == "json_twice":
+        return pp.from_json_string(pp.to_json(pp.from_json_string(pp.to_json(net))))
+    if fmt == "pickle_twice":
+        return roundtrip(roundtrip(net, "pickle_file"), "pickle_file")
+    if fmt == "json_then_pickle":
+        return roundtrip(roundtrip(net, "json_str"), "pickle_file")
+    if fmt == "pickle_then_json":
+        return roundtrip(roundtrip(net, "pickle_file"), "json_str")
     if fmt == "json_buf":
         buf = io.StringIO()
         pp.to_json(net, buf)
@@ -70,10 +94,12 @@ def public_keys(net):
     return [k for k in net.keys() if not k.startswith("_")]
 
 
-def compare_full(a, b, fmt):
+def compare_full(a, b, fmt, only=None):
     """to_json / to_pickle clause of the statement: everything equal"""
-    c = Cmp(ftol=0.0 if fmt.startswith("pickle") else 1e-14)
+    c = Cmp(ftol=0.0 if (fmt.startswith("pickle") and "json" not in fmt) else 1e-14)
     ka, kb = public_keys(a), public_keys(b)
+    if only is not None:
+        ka, kb = [k for k in ka if k in only], [k for k in kb if k in only]
     if sorted(ka) != sorted(kb):
         c.add("tables", "net.keys", sorted(set(ka) - set(kb)), sorted(set(kb) - set(ka)))
     for k in ka:
@@ -190,7 +216,7 @@ def run_pf(net):
 
 def compare_results(a, b, fmt):
     """a, b: pf views after run_pf with the same outcome 'ok'"""
-    c = Cmp(ftol=0.0 if fmt.startswith("pickle") else 1e-9)
+    c = Cmp(ftol=0.0 if (fmt.startswith("pickle") and "json" not in fmt) else 1e-9)
     for k in a.keys():
         if k.startswith("res_") and isinstance(a[k], pd.DataFrame):
             if k not in b:
